@@ -320,7 +320,10 @@ fn has_repeat(p: &[Node]) -> bool {
 
 fn corrupt(rng: &mut Rng, valid: &str, tree: &[Node]) -> Option<(String, &'static str)> {
 	let st = Style { ws: 1, quote_all: false };
-	Some(match rng.below(14) {
+	Some(match rng.below(17) {
+		14 => (format!("{valid} {}={}", ident(rng), rng.pick(&["straße", "köln.versatiles", "naïve", "Ünï", "日本"])), "bare value with non-ASCII letters (must be quoted)"),
+		15 => (format!("{valid} {}={}", ident(rng), rng.pick(&["５", "٣", "1٣", "४2"])), "bare value with non-ASCII digits (must be quoted)"),
+		16 => (format!("{valid} {}=[1,2,{},4]", ident(rng), rng.pick(&["٣", "５", "ä"])), "list element with non-ASCII characters (must be quoted)"),
 		12 => (format!("{valid} {}=\"1\"{}=\"2\"", ident(rng), ident(rng)), "no whitespace between a quoted value and the next parameter"),
 		13 => (format!("{valid} {}=[1,2]{}=3", ident(rng), ident(rng)), "no whitespace between a value list and the next parameter"),
 		0 => (format!("{valid} ]"), "unbalanced closing bracket"),
